@@ -5,25 +5,26 @@
 # Prints one line: SEED <dir> clean_demo=<rc> apply=<ok|fail> tests=<passed>/<failed> patched_demo=<rc> => CONFIRMED|REJECTED
 set -u
 SRC="$(cd "$1" && pwd)"
-WT=/tmp/sv/wt
+WT=${SV_WT:-/tmp/sv/wt}
+SVD=$(dirname "$WT")
 export CARGO_NET_OFFLINE=true
-mkdir -p /tmp/sv
+mkdir -p "$SVD"
 if [ ! -d "$WT" ]; then git -C /repo worktree add --detach "$WT" HEAD >/dev/null 2>&1 || { echo "cannot create worktree"; exit 2; }; fi
 git -C "$WT" checkout -q --detach "$(git -C /repo rev-parse HEAD)" 2>/dev/null
-git -C "$WT" checkout -q -- . ; git -C "$WT" clean -fdq crates
-( cd "$SRC" && bash ./demo.sh "$WT" ) >/tmp/sv/clean_demo.log 2>&1; C=$?
-git -C "$WT" checkout -q -- . ; git -C "$WT" clean -fdq crates
-if git -C "$WT" apply "$SRC/patch.diff" 2>/tmp/sv/apply.log || git -C "$WT" apply -3 "$SRC/patch.diff" 2>>/tmp/sv/apply.log; then A=ok; else A=fail; fi
+git -C "$WT" reset -q --hard; git -C "$WT" clean -fdq crates
+( cd "$SRC" && bash ./demo.sh "$WT" ) >$SVD/clean_demo.log 2>&1; C=$?
+git -C "$WT" reset -q --hard; git -C "$WT" clean -fdq crates
+if git -C "$WT" apply "$SRC/patch.diff" 2>$SVD/apply.log || git -C "$WT" apply -3 "$SRC/patch.diff" 2>>$SVD/apply.log; then A=ok; else A=fail; fi
 T="-"; P="-"
 if [ $A = ok ]; then
-  ( cd "$WT" && cargo test --workspace --no-fail-fast --offline ) >/tmp/sv/tests.log 2>&1
-  pass=$(grep -E "^test result:" /tmp/sv/tests.log | sed -E 's/.* ([0-9]+) passed.*/\1/' | paste -sd+ | bc)
-  fail=$(grep -E "^test result:" /tmp/sv/tests.log | sed -E 's/.* ([0-9]+) failed.*/\1/' | paste -sd+ | bc)
-  grep -q "error: could not compile\|error\[E" /tmp/sv/tests.log && fail="compile-error"
+  ( cd "$WT" && cargo test --workspace --no-fail-fast --offline ) >$SVD/tests.log 2>&1
+  pass=$(grep -E "^test result:" $SVD/tests.log | sed -E 's/.* ([0-9]+) passed.*/\1/' | paste -sd+ | bc)
+  fail=$(grep -E "^test result:" $SVD/tests.log | sed -E 's/.* ([0-9]+) failed.*/\1/' | paste -sd+ | bc)
+  grep -q "error: could not compile\|error\[E" $SVD/tests.log && fail="compile-error"
   T="$pass/$fail"
-  ( cd "$SRC" && bash ./demo.sh "$WT" ) >/tmp/sv/patched_demo.log 2>&1; P=$?
+  ( cd "$SRC" && bash ./demo.sh "$WT" ) >$SVD/patched_demo.log 2>&1; P=$?
 fi
-git -C "$WT" checkout -q -- . ; git -C "$WT" clean -fdq crates
+git -C "$WT" reset -q --hard; git -C "$WT" clean -fdq crates
 V=REJECTED
 if [ "$C" = 0 ] && [ $A = ok ] && [ "$T" = "215/0" ] && [ "$P" != 0 ] && [ "$P" != "-" ]; then V=CONFIRMED; fi
 echo "SEED $SRC clean_demo=$C apply=$A tests=$T patched_demo=$P => $V"
